@@ -12,6 +12,7 @@ namespace robust {
 // ---- heap fill seam: every operator-new block is filled with g_fill before use (uninitialised reads become fill-dependent)
 extern unsigned char g_fill;
 extern bool g_fill_on;
+extern size_t g_shift;
 inline void dirtyStack(unsigned char v) {
   volatile unsigned char buf[192 * 1024];
   for (size_t i = 0; i < sizeof buf; i += 1) buf[i] = v;
@@ -62,16 +63,26 @@ struct Edits {
 }  // namespace robust
 
 #ifdef ROBUST_DEFINE_NEW
-namespace robust { unsigned char g_fill = 0; bool g_fill_on = false; }
+namespace robust { unsigned char g_fill = 0; bool g_fill_on = false; size_t g_shift = 0; }
+// Every block: [raw ... shift bytes ...][16-byte header holding the shift][user data].  Shifting changes every pointer value and the
+// relative order/spacing of blocks; filling makes reads of uninitialised heap memory pattern-dependent.
 void *operator new(std::size_t n) {
-  void *p = std::malloc(n ? n : 1);
-  if (!p) throw std::bad_alloc();
-  if (robust::g_fill_on) std::memset(p, robust::g_fill, n);
-  return p;
+  std::size_t shift = robust::g_fill_on ? robust::g_shift : 0;
+  char *raw = static_cast<char *>(std::malloc(n + shift + 16));
+  if (!raw) throw std::bad_alloc();
+  char *user = raw + shift + 16;
+  *reinterpret_cast<std::size_t *>(user - 16) = shift;
+  if (robust::g_fill_on) std::memset(user, robust::g_fill, n);
+  return user;
 }
 void *operator new[](std::size_t n) { return operator new(n); }
-void operator delete(void *p) noexcept { std::free(p); }
-void operator delete[](void *p) noexcept { std::free(p); }
-void operator delete(void *p, std::size_t) noexcept { std::free(p); }
-void operator delete[](void *p, std::size_t) noexcept { std::free(p); }
+void operator delete(void *p) noexcept {
+  if (!p) return;
+  char *user = static_cast<char *>(p);
+  std::size_t shift = *reinterpret_cast<std::size_t *>(user - 16);
+  std::free(user - 16 - shift);
+}
+void operator delete[](void *p) noexcept { operator delete(p); }
+void operator delete(void *p, std::size_t) noexcept { operator delete(p); }
+void operator delete[](void *p, std::size_t) noexcept { operator delete(p); }
 #endif
